@@ -41,6 +41,7 @@ class Run:
     # ---- obligations -------------------------------------------------------------------------
     def ob(self, rule, key, ok, what, sp=None, cfg=None, detail=None, trivial=False):
         """Record one obligation.  `key` identifies the construct (never a line number)."""
+        key = str(key).replace(" ", "_")     # keys are single tokens (known_findings.txt is line/space oriented)
         self.obs.append({"rule": rule, "key": "%s:%s" % (rule, key), "ok": bool(ok), "what": what, "sp": sp,
                          "cfg": cfg, "detail": detail, "trivial": trivial})
         return bool(ok)
